@@ -254,3 +254,25 @@ func indent(code string, tabs int) string {
 }
 
 // CatalogueForms (C02) is defined in catalogue.go.
+
+// RepresentativeForms: the forms used at depth 3 (position in position): one
+// per l-value kind / binder kind / control construct.
+func RepresentativeForms() []Form {
+	want := map[string]bool{}
+	for _, id := range []string{"u64_sub", "u32_add", "cmp64_lt", "bool_and", "short_and_effect", "conv_64_8", "str_concat_lit",
+		"opassign_var_add", "opassign_deref_add", "opassign_ptrfield_add", "opassign_varfield_add", "opassign_elem_add", "opassign_map_add", "opassign_nested_ptrfield",
+		"inc_var", "assign_varfield", "define_use", "var_init", "var_zero_struct", "multi_assign", "multi_define3", "map_lookup_ok", "map_delete",
+		"append_one", "slice_sub", "copy_stmt", "slice_struct_ref", "struct_assign_full", "struct_store_deref", "ptr_to_var", "ptr_to_ptrfield",
+		"call_ptr_effect", "method_ptr_recv", "recursion", "closure_capture_write", "closure_early_return",
+		"if_else", "if_else_chain", "if_local_shadow", "for_sum", "for_break_continue", "for_cond_only", "range_slice_both", "range_map", "bare_block",
+		"if_shadows_outer", "bareblock_shadows_outer", "range_var_shadows_outer", "closure_param_shadows_outer"} {
+		want[id] = true
+	}
+	var out []Form
+	for _, f := range append(CoreForms(), DedicatedForms()...) {
+		if want[f.ID] && f.Family == "" {
+			out = append(out, f)
+		}
+	}
+	return out
+}
